@@ -26,4 +26,6 @@ func init() {
 
 func init() {
 	alias("C15", "R2", "C04", "R6", "a synced write must have reached the disk")
+	alias("C03", "R6", "C07", "R5", "the last commit a proposer places in the next block must verify, or every proposal of the next height is rejected")
+	alias("C05", "R9", "C18", "R1", "after a crash inside SaveBlock the block store must not report a height whose seen commit or parts are missing (restart would not go on committing)")
 }
